@@ -291,6 +291,22 @@ func (r *Run) Inconclusive(what string) {
 	r.mu.Unlock()
 }
 
+// Single reports whether exactly one case is being (re-)run alone.
+func (r *Run) Single() bool { return r.To >= 0 && r.To == r.From+1 }
+
+// Watchdog is called when a wall-clock watchdog fires. A watchdog is never a
+// verdict by itself: the event is recorded as inconclusive and the process
+// exits, so that vcheck re-runs the announced case alone with a larger budget
+// and reports a timeout only if it repeats there.
+func (r *Run) Watchdog(what string) {
+	r.mu.Lock()
+	r.emit(map[string]interface{}{"ev": "watchdog", "what": what})
+	r.w.Flush()
+	r.mu.Unlock()
+	fmt.Fprintf(os.Stderr, "fatal error: verif watchdog: %s\n", what)
+	os.Exit(3)
+}
+
 // Violation reports a violation that is not tied to a Case.
 func (r *Run) Violation(sig string, idx int, detail interface{}) {
 	r.mu.Lock()
